@@ -79,7 +79,7 @@ Theorem output_size_exact d addr coin (gs : groups) :
   get_output_size (lenN addr) + calc_value_size coin (groups_shape gs) + get_value_struct_size (is_nil gs).
 Proof.
   intros H. unfold TransactionOutput, output_val, choice. cbn [cl enc enc_cl app].
-  unfold TransactionOutputLegacy, arr. cbn [sl enc enc_sl slen]. rewrite !lenN_app, lenN_head. change (lenN (@nil N)) with 0.
+  unfold TransactionOutputArr. cbn [sl enc enc_sl slen app]. rewrite !lenN_app, lenN_head. change (lenN (@nil N)) with 0.
   rewrite (value_size_exact coin gs H). unfold AddressS. cbn [enc]. rewrite lenN_app, lenN_head.
   unfold get_output_size. fold (lenN addr). change (1 + (1 + 0)) with 2. lia.
 Qed.
